@@ -722,6 +722,16 @@ def judge_conn(rec: Any, insts: List[Any], family: str, carrier: str, deflate: b
         code = None if wsp is None or wsp.close is None else int(wsp.close[0])
         if code != 1009:
             out.append(V("no-1009", f"{tag2}:close={code}", f"oversize message {over} of {msgs!r}"))
+        elif not crashed:
+            # "the server closes with 1009": every client here answers with its own Close frame (the last thing it
+            # sends) - with that the closing handshake is complete: the application is told (the echo application
+            # returns at websocket.disconnect) and an HTTP/1.1 connection is closed by the server
+            if inst.outcome == "running":
+                out.append(V("no-1009", f"{tag2}:close-handshake-not-completed:application-still-running",
+                             f"oversize message {over}; delivered {types}"))
+            elif carrier == "ws/h1" and rec.closed_at is None:
+                out.append(V("no-1009", f"{tag2}:close-handshake-not-completed:connection-left-open",
+                             f"oversize message {over}; delivered {types}"))
     req, allp = required_pongs(case)
     pongs = list(wsp.pongs) if wsp is not None else []
     if not (len(req) <= len(pongs) <= len(allp) and pongs == allp[:len(pongs)]):
